@@ -4,6 +4,7 @@ import (
 	"fmt"
 	"go/token"
 	"go/types"
+	"sort"
 
 	"golang.org/x/tools/go/ssa"
 )
@@ -350,6 +351,65 @@ func runC16(w *World, r *Report) {
 	{
 		roots := runRoots(w)
 		ruleReadOnlyAtRuntime(w, r, "C16.options-not-retained", w.reachableFrom(roots...), compiledTypeSet(w), roots)
+	}
+
+	// a node's state pre-/post-handler is run with that node's call options (submit / waitOne pass task.option on): the
+	// runnable wrapped around a handler therefore accepts options of any type — a concrete option type would make
+	// convertOption reject every real option routed to a node that also has a state handler
+	r.Rule("C16.handler-wrappers-take-any-option", "the runnables built for state pre-/post-handlers (plain and stream) are instantiated with option type `any`", 4)
+	{
+		fPre := w.Field("compose", "processorOpts", "statePreHandler")
+		fPost := w.Field("compose", "processorOpts", "statePostHandler")
+		rl := w.Fn("compose", "runnableLambda")
+		builders := map[*ssa.Function]bool{}
+		for _, fn := range w.RepoFuncs("compose") {
+			for _, fw := range fieldWrites(fn) {
+				if !sameField(fw.field, fPre) && !sameField(fw.field, fPost) {
+					continue
+				}
+				if c, ok := fw.val.(*ssa.Call); ok {
+					if sc := staticCallee(c); sc != nil {
+						builders[origin(sc)] = true
+					}
+				}
+			}
+		}
+		n := 0
+		var bs []*ssa.Function
+		for b := range builders {
+			bs = append(bs, b)
+		}
+		sort.Slice(bs, func(i, j int) bool { return bs[i].String() < bs[j].String() })
+		for _, b := range bs {
+			for _, c := range callsTo(b, rl) {
+				n++
+				// the option type is the element type of the variadic last parameter of the function value handed in
+				good := false
+				got := "?"
+				for _, a := range c.Common().Args {
+					if isNilConst(a) {
+						continue
+					}
+					sig, ok := a.Type().Underlying().(*types.Signature)
+					if !ok || !sig.Variadic() {
+						continue
+					}
+					last := sig.Params().At(sig.Params().Len() - 1).Type()
+					if sl, ok := last.Underlying().(*types.Slice); ok {
+						got = sl.Elem().String()
+						if it, ok := sl.Elem().Underlying().(*types.Interface); ok && it.Empty() {
+							if _, isTP := sl.Elem().(*types.TypeParam); !isTP {
+								good = true
+							}
+						}
+					}
+				}
+				r.Check(good, "C16.handler-wrappers-take-any-option", w.fname(b)+" builds its runnable with option type any", c.Pos(), "runnableLambda[…, …, any]", "the handler's runnable is instantiated with option type "+got+": the node's own call options are handed to it as well, convertOption rejects them ('unexpected component option type') and a valid option routed to a node that has a state handler fails the run instead of reaching the node")
+			}
+		}
+		if n < 4 {
+			r.Fail("C16.handler-wrappers-take-any-option", "state handler runnable builders", rl.Pos(), fmt.Sprintf("%d runnableLambda calls in %d builder functions found (floor 4)", n, len(bs)))
+		}
 	}
 
 	// ---- no-leak
